@@ -5,7 +5,7 @@ from rules.gwlib import *
 EXPLAIN = ('gateway approve_messages / validate_proof: (R1) every approval write and message_approved event is must-guarded '
            'by: messages non-empty; EpochBySignersHash(H) present for H = keccak256(xdr(WeightedSigners rebuilt from the '
            'proof: signers pushed in order, threshold, nonce)); epoch - set-epoch <= retention; accumulated weight >= '
-           'proof.threshold; (R2) the data hash is keccak256(xdr((CommandType::ApproveMessages, messages))) over exactly the '
+           'proof.threshold, and so does every SUCCESS exit of approve_messages (an unauthenticated Ok is an acceptance); (R2) the data hash is keccak256(xdr((CommandType::ApproveMessages, messages))) over exactly the '
            'messages parameter and the approving loop iterates that same vector; (R3/R4) the verified digest is '
            'keccak256(domain separator || H || data hash), each signature is verified against the loop element\'s own key, '
            'weights are added by a trapping checked add only after ed25519_verify in the same iteration, the accumulator '
